@@ -3,6 +3,7 @@ pub mod findings;
 pub mod par;
 pub mod memsource;
 pub mod codec;
+pub mod tilesets;
 pub mod checks;
 
 pub use ctx::{Ctx, Tier};
